@@ -35,6 +35,7 @@ def run(R, tier):
     rng = R.rng
     R.broken = getattr(R, 'broken', [])
     n_alg = 4 if tier == 'quick' else 40
+    many_patterns(R, rng, tier)
     for ai in range(n_alg):
         d = rng.choice((2, 3))
         spec = {'sig': [rng.choice((1, 1, -1)) for _ in range(d)]}
@@ -159,6 +160,36 @@ def run(R, tier):
                 compare_with_model(R, f'C10_{ai}', alg, {}, use_wrapper, top, probe, algs.describe(spec))
             else:
                 R.count('history-with-failed-generation (not model-compared)')
+            # registered functions, one nested in two others: the python body of each is traced once per key pattern, whether it is
+            # reached directly or from inside another registered function, in any order
+            traced = {'inner': 0, 'outer1': 0, 'outer2': 0}
+            def inner(a, b):
+                traced['inner'] += 1
+                return a * b + a
+            inner_r = alg.register(inner)
+            def outer1(a, b):
+                traced['outer1'] += 1
+                return inner_r(a, b) | b
+            def outer2(a, b):
+                traced['outer2'] += 1
+                return inner_r(a, b) ^ a
+            o1, o2 = alg.register(outer1), alg.register(outer2)
+            ku, kv_ = tuple(rng.sample(canon, 2)), tuple(rng.sample(canon, 2))
+            mk2 = lambda: (oc.make_mv(alg, list(ku), coeffs('float', rng, 2)), oc.make_mv(alg, list(kv_), coeffs('float', rng, 2)))
+            seq = [o1, inner_r, o2, o1, inner_r, o2]
+            if ai % 2:
+                seq = [inner_r, o2, o1, o2, inner_r, o1]
+            for f_ in seq:
+                try:
+                    f_(*mk2())
+                except Exception:  # noqa
+                    pass
+            R.count('registered=nested'); R.case(('nested-registered', ai), True)
+            if any(v > 1 for v in traced.values()):
+                R.violation({'clause': 'regenerated', 'coeff': 'registered'},
+                            {'algebra': spec, 'op': 'registered', 'keys': [list(ku), list(kv_)], 'coefficients': 'float', 'traced': dict(traced)},
+                            f'registered functions were traced {traced} times for ONE key pattern {ku}, {kv_} in Algebra({algs.describe(spec)}) '
+                            f'(inner is called directly and from inside outer1 and outer2)')
             # key containers that are not tuples (a range): one generation per pattern all the same (after the model
             # comparison: a range is a different dictionary key than the tuple with the same entries)
             from kingdon import MultiVector
@@ -176,6 +207,35 @@ def run(R, tier):
                     R.violation({'clause': 'regenerated', 'coeff': 'range-keys'},
                                 {'algebra': spec, 'op': uop, 'keys': [[1, 2]], 'coefficients': 'range keys', 'events': [(e[1], str(e[2])) for e in gens]},
                                 f'{uop} on a multivector whose keys are range(1, 3) in Algebra({algs.describe(spec)}) was generated {len(gens)} times in 4 calls')
+
+
+def many_patterns(R, rng, tier):
+    """Hundreds of key patterns of one operator on one algebra: the function generated for an early pattern is still THE function
+    of that pattern afterwards (nothing is evicted and generated again)."""
+    alg = algs.make_impl({'sig': [1, 1, 1, 1]})
+    canon = list(alg.canon2bin.values())
+    n = 300 if tier == 'quick' else 1500
+    pats = set()
+    while len(pats) < n:
+        pats.add(tuple(rng.sample(canon, rng.randint(1, 5))))
+    pats = list(pats)
+    for opname, ar in (('neg', 1), ('add', 2)):
+        od = getattr(alg, opname)
+        first = {}
+        for i, p in enumerate(pats):
+            key = p if ar == 1 else (p, pats[(i * 7 + 1) % n])
+            mvs = [oc.make_mv(alg, list(k), [1] * len(k)) for k in ((key,) if ar == 1 else key)]
+            getattr(alg, opname)(*mvs)
+            if i < 25:
+                first[key] = od[key][1]
+        R.count('many-patterns=' + opname); R.case(('many-patterns', opname, n), True)
+        again = [key for key, f in first.items() if od[key][1] is not f]
+        if again or len(od) < n:
+            R.violation({'clause': 'regenerated', 'coeff': 'many-patterns'},
+                        {'algebra': {'sig': [1, 1, 1, 1]}, 'op': opname, 'keys': [list(k) if ar == 1 else [list(x) for x in k] for k in again[:3]], 'coefficients': 'int',
+                         'patterns': n, 'cached': len(od)},
+                        f'{opname}: after {n} distinct key patterns on Algebra(4) the cache holds {len(od)} of them and {len(again)} of the first 25 patterns '
+                        f'got a newly generated function')
 
 
 def replay(R, rec):
